@@ -1084,7 +1084,8 @@ def classify_tcp_reject(rj):
     if name in ("ConnectDone", "AcceptDone"):
         if ev.get("ec") not in ("ok", "refused", "aborted"):
             return "C07", "tcp.%s(ec=%s)" % (name, ev.get("ec"))
-        return ("C13" if has_nat else "C07"), "tcp.%s-endpoints-or-pairing(ec=%s)" % (name, ev.get("ec"))
+        # (C07 states the endpoint equations "as seen through any NAT", C13 states what is seen through a NAT)
+        return (("C13", "C07") if has_nat else "C07"), "tcp.%s-endpoints-or-pairing(ec=%s)" % (name, ev.get("ec"))
     if name == "WriteDone":
         return "C05", "tcp.write-reported-bytes"
     if name in ("Livelock", "Abandon"):
@@ -1199,6 +1200,31 @@ def tcp_pairing_patterns(path):
     return n
 
 
+def tcp_syn_drop_programs(path):
+    """A second connection is dialled while the receiver's in-queue (room for exactly one full segment, 5 kB/s) is occupied by
+    the first connection's bulk transfer, so that its SYN is tail-dropped - once, or many times in a row (C06: connects to a
+    listening acceptor with an accept outstanding complete); the accept is posted before or after."""
+    n = 0
+    with open(path, "w") as f:
+        for cap, bw in ((1515, 5000), (1600, 20000), (3100, 5000)):
+            for at2 in (300000, 500000, 900000):
+                for acc2 in (2, 2000000):
+                    topo = {"tick_ns": 1000, "dmtu": 1475,
+                            "addrs": {"A1": {"nat": "", "out_lat": 1000, "in_lat": 0, "out_cap": 0, "in_cap": 0, "out_bw": 0, "in_bw": 50000000},
+                                      "B1": {"nat": "", "out_lat": 0, "in_lat": 1000, "out_cap": 0, "in_cap": cap, "out_bw": 0, "in_bw": bw}},
+                            "mtu": [], "net": {"lat": 1000, "cap": 0, "bw": 50000}, "nodes": {"N1": ["A1"], "N2": ["B1"]}}
+                    def conn(i, c2a, accept_at, connect_at, cport):
+                        return {"id": i, "client": "c%d" % i, "cnode": "N1", "caddr": "A1", "cport": cport, "acc": "l1", "into": "a%d" % i,
+                                "form": 1, "accept_at": accept_at, "connect_at": connect_at, "target": ["B1", 8000],
+                                "c2a": {"bytes": c2a, "sizes": [20000]}, "a2c": {"bytes": 0, "sizes": [10]},
+                                "cread": {"style": "read", "caps": [100]}, "aread": {"style": "read", "caps": [65536]}, "close": "none"}
+                    prog = {"topo": topo, "acceptors": {"l1": {"node": "N2", "addr": "B1", "port": 8000}}, "ctl": [],
+                            "conns": [conn(1, 20000, 1, 5, 4001), conn(2, 100, acc2, at2, 4002)]}
+                    f.write(json.dumps(prog) + "\n")
+                    n += 1
+    return n
+
+
 def tcp_drop_patterns(path):
     """Exhaustive drop / delay patterns over the first segments of a single connection
     (every subset of the first 4 data segments dropped once, each optionally twice, or delayed),
@@ -1287,7 +1313,9 @@ def c06(ctx):
     ctx.assumptions = ["runs with injected (ctl) drops are outside the statement's preconditions and end with EndLoose",
                        "in-flight / lost / deliverable are the specification's variables reconstructed from probe events"]
     vlib.tlc_mc(ctx, "MCTcpFlow.tla", "MC_TcpFlow.cfg", timeout=900)
-    tcp_pipeline(ctx, "C06", n_quick=400)
+    fs = ctx.path("ts_syn_drop.ndjson")
+    tcp_syn_drop_programs(fs)
+    tcp_pipeline(ctx, "C06", n_quick=400, extra_files=[fs])
 
 
 @check("C07", "model_checking")
